@@ -304,9 +304,9 @@ REQS = {1, 2, 3}
 SCOPES = {
     "quick": [
         dict(name="P2", P=2, CreateSet={0, 1}, mc=dict(MaxReq=3, MaxFail=1, Horizon=6), env=dict(MaxReq=3, MaxFail=1, Horizon=5, MaxDepth=8),
-             n_focal=48, n_random=500),
+             n_focal=44, n_random=400),
         dict(name="P3", P=3, CreateSet={1, 3}, mc=dict(MaxReq=3, MaxFail=1, Horizon=7), env=dict(MaxReq=3, MaxFail=1, Horizon=6, MaxDepth=8),
-             n_focal=24, n_random=250),
+             n_focal=22, n_random=200),
     ],
     "thorough": [
         dict(name="P2", P=2, CreateSet={0, 1}, mc=dict(MaxReq=4, MaxFail=2, Horizon=7), env=dict(MaxReq=3, MaxFail=2, Horizon=6, MaxDepth=9),
@@ -460,6 +460,10 @@ CORE_NEEDS = ("duplicate_takes", "samples_with_value", "source_stops", "sink_fai
               "survivors_served_in_failing_round", "ticks_for_survivors_after_recovery", "takes_during_a_round", "late_take_served_next_tick")
 
 
+# what can be witnessed through the channel ends alone (when the private attributes the probes use are renamed)
+PUBLIC_NEEDS = ("duplicate_takes", "samples_with_value", "source_stops", "sink_failures", "takes_during_a_round", "late_take_served_next_tick")
+
+
 def _printable(consts: dict) -> dict:
     return {k: (sorted(x) if isinstance(x, (set, frozenset)) else x) for k, x in consts.items()}
 
@@ -506,11 +510,13 @@ def _stage(rep: Report, sc: dict, work: Path, tier: str) -> None:
     rep.validated += done
     recs = [r_ for p in shards for r_ in load_ndjson(p)]
     wit = _witness(recs)
+    probed = all(r_["probe"] for r_ in recs)
+    rep.extra["probes_available"] = rep.extra.get("probes_available", True) and probed
     if not fails:
-        for k in CORE_NEEDS:
+        for k in CORE_NEEDS if probed else PUBLIC_NEEDS:
             if not wit.get(k):
                 raise RuntimeError(f"vacuity: stage {name} never exercised '{k}' ({wit})")
-    if not all(r_["probe"] for r_ in recs):
+    if not probed:
         rep.notes.append(f"stage {name}: Resampler probes unavailable (private attributes renamed); only channel observations were bound")
     rep.extra.setdefault("stages", []).append(dict(stage=name, **info, traces_validated=done, val_states=st["states"],
                                                    mc_s=rep.mc[-2]["wall_s"], gen_s=res.wall_s, run_s=run_s, val_s=t2.s()))
@@ -553,7 +559,7 @@ def run(prop: str, tier: str) -> int:
         _stage(rep, sc, work, tier)
     if not rep.failures:
         agg = rep.extra.get("clause_antecedents_exercised", {})
-        for k in NEEDS:
+        for k in NEEDS if rep.extra.get("probes_available") else PUBLIC_NEEDS:
             if not agg.get(k):
                 raise RuntimeError(f"vacuity: no recorded execution exercised '{k}' ({agg})")
     rep.exhaustive = False  # offsets are crossed exhaustively for focal events only, orders are sub-sampled
